@@ -1,0 +1,186 @@
+//go:build verif
+
+// Contracts for the deductive verifier in /verif (comment-only file; it
+// contributes no code to any build). Syntax: see /verif/DESIGN.md.
+//
+// Property C09: the streaming CAS validators report successful completion
+// (io.EOF) only after the source has ended, exactly the announced number of
+// bytes has been seen and hashed, and the checksum comparison came out equal;
+// the integrity callback gets a positive verdict exactly then, and a negative
+// one only for a size or checksum mismatch.
+package buffer
+
+// Verdicts handed to DataIntegrityCallbacks so far.
+//@ ghost posV int
+//@ ghost negV int
+//@ iface DataIntegrityCallback.call
+//@   modifies posV, negV
+//@   ensures dataIsValid ==> posV == old(posV) + 1 && negV == old(negV)
+//@   ensures !dataIsValid ==> negV == old(negV) + 1 && posV == old(posV)
+
+//@ func (Source).notifyDataValid
+//@   requires s.dataIntegrityCallback != nil
+//@   modifies posV
+//@   ensures posV == old(posV) + 1
+//@ func (Source).notifyCASTooBig
+//@   requires s.dataIntegrityCallback != nil
+//@   modifies negV
+//@   ensures negV == old(negV) + 1 && result != nil && result != io.EOF && code(result) == s.errorCode
+//@ func (Source).notifyCASSizeMismatch
+//@   requires s.dataIntegrityCallback != nil
+//@   modifies negV
+//@   ensures negV == old(negV) + 1 && result != nil && result != io.EOF && code(result) == s.errorCode
+//@ func (Source).notifyCASHashMismatch
+//@   requires s.dataIntegrityCallback != nil
+//@   modifies negV
+//@   ensures negV == old(negV) + 1 && result != nil && result != io.EOF && code(result) == s.errorCode
+
+// ---- casValidatingReader
+// vrBase(r): what the source had delivered when the validator was created.
+//@ ghost vrBase(ref) int
+//@ pure vrSeen(r) = srcCount(r.ReadCloser) - vrBase(r)
+//@ pure vrWF(r) = r.ReadCloser != nil && r.hasher != nil && r.source.dataIntegrityCallback != nil && r.bytesRemaining >= 0
+//@ pure vrInv(r) = vrWF(r)
+//@     && (r.err == nil ==> hCount(r.hasher) + r.bytesRemaining == dgSize(r.digest.value) && vrSeen(r) == hCount(r.hasher))
+//@ typeinv casValidatingReader(r) = vrInv(r)
+// The comparison that was made last compared the digest's hash with the
+// checksum of everything the hasher of r has been fed.
+//@ pure vrCompared(r) = cmpOK == 1 && dgHash(cmpA) == 1 && sumOf(cmpB) == r.hasher && sumCount(cmpB) == hCount(r.hasher)
+// Successful completion: the source has ended, size and checksum match.
+//@ pure vrComplete(r) = srcEOF(r.ReadCloser) == 1 && vrSeen(r) == dgSize(r.digest.value)
+//@     && hCount(r.hasher) == dgSize(r.digest.value) && vrCompared(r)
+
+//@ func newCASValidatingReader
+//@   requires r != nil && source.dataIntegrityCallback != nil
+//@   exitghost vrBase(result) := srcCount(r)
+//@   ensures result != nil && tinv(result)
+
+//@ func (*casValidatingReader).compareChecksum
+//@   requires vrWF(r)
+//@   modifies cmpCalls, cmpOK, cmpA, cmpB, negV
+//@   ensures cmpCalls == old(cmpCalls) + 1
+//@   ensures result == nil ==> vrCompared(r) && negV == old(negV)
+//@   ensures result != nil ==> cmpOK != 1 && negV == old(negV) + 1 && result != io.EOF && code(result) == r.source.errorCode
+
+//@ func (*casValidatingReader).checkSize
+//@   requires vrWF(r)
+//@   modifies negV
+//@   ensures result == nil <==> n <= r.bytesRemaining
+//@   ensures result == nil ==> negV == old(negV)
+//@   ensures result != nil ==> negV == old(negV) + 1 && result != io.EOF && code(result) == r.source.errorCode
+
+//@ func (*casValidatingReader).doRead
+//@   requires vrInv(r) && r.err == nil
+//@   ensures [counts] result1 == nil ==> hCount(r.hasher) + r.bytesRemaining == dgSize(r.digest.value) && vrSeen(r) == hCount(r.hasher)
+//@         && r.bytesRemaining >= 0
+//@   ensures [fields] unchanged(r.ReadCloser) && unchanged(r.hasher) && unchanged(r.source.dataIntegrityCallback) && unchanged(r.err)
+//@         && unchanged(r.digest.value) && r.bytesRemaining >= 0
+//@   ensures [complete-only-if-valid] result1 == io.EOF ==> vrComplete(r)
+//@   ensures [positive-verdict-iff-complete] (result1 == io.EOF ==> posV == old(posV) + 1) && (result1 != io.EOF ==> posV == old(posV))
+//@   ensures [negative-verdict-only-on-mismatch] negV != old(negV) ==> result1 != nil && result1 != io.EOF
+//@         && code(result1) == r.source.errorCode
+//@         && (vrSeen(r) > dgSize(r.digest.value) || (srcEOF(r.ReadCloser) == 1 && vrSeen(r) < dgSize(r.digest.value)) || cmpOK != 1)
+//@   ensures [data-withheld-on-error] result1 != nil && result1 != io.EOF ==> result0 == 0
+//@   ensures [length] 0 <= result0 && result0 <= len(p)
+
+//@ func (*casValidatingReader).Read
+//@   requires vrInv(r)
+//@   ensures [inv] vrInv(r)
+//@   ensures [sticky] old(r.err) != nil ==> result1 == old(r.err) && result0 == 0 && posV == old(posV) && negV == old(negV)
+//@         && srcCount(r.ReadCloser) == old(srcCount(r.ReadCloser))
+//@   ensures [complete-only-if-valid] old(r.err) == nil && result1 == io.EOF ==> vrComplete(r)
+//@   ensures [positive-verdict-iff-complete] old(r.err) == nil ==> (result1 == io.EOF ==> posV == old(posV) + 1) && (result1 != io.EOF ==> posV == old(posV))
+//@   ensures [data-withheld-on-error] result1 != nil && result1 != io.EOF ==> result0 == 0
+//@   ensures [error-recorded] r.err == result1
+
+// ---- byte slices are validated eagerly: a readable buffer comes back only if
+// size and checksum match; otherwise an error buffer and a negative verdict.
+//@ func NewValidatedBufferFromByteSlice
+//@   modifies nothing
+//@   ensures result != nil && typeis(result, "*buffer.validatedByteSliceBuffer")
+//@ func NewBufferFromError
+//@   modifies nothing
+//@   ensures result != nil && typeis(result, "buffer.errorBuffer")
+//@ func NewCASBufferFromByteSlice
+//@   requires source.dataIntegrityCallback != nil
+//@   ensures [verdict-exactly-one] (posV == old(posV) + 1 && negV == old(negV)) || (posV == old(posV) && negV == old(negV) + 1)
+//@   ensures [positive-verdict-only-if-valid] posV == old(posV) + 1 ==> len(data) == dgSize(digest.value)
+//@         && cmpOK == 1 && cmpCalls == old(cmpCalls) + 1 && dgHash(cmpA) == 1 && sumCount(cmpB) == len(data)
+//@   ensures [negative-verdict-only-on-mismatch] negV == old(negV) + 1 ==> len(data) != dgSize(digest.value) || (cmpCalls == old(cmpCalls) + 1 && cmpOK != 1)
+//@   ensures [readable-only-if-valid] typeis(result, "*buffer.validatedByteSliceBuffer") <==> posV == old(posV) + 1
+
+// ---- casValidatingChunkReader: the same discipline for chunked sources.
+// A ChunkReader hands out chunks of its own; srcCount adds up their lengths.
+//@ iface ChunkReader.Read
+//@   modifies srcCount(self), srcEOF(self)
+//@   ensures err == nil ==> srcCount(self) == old(srcCount(self)) + len(result0)
+//@   ensures err != nil ==> srcCount(self) == old(srcCount(self))
+//@   ensures err == io.EOF ==> srcEOF(self) == 1
+//@   ensures err != io.EOF ==> srcEOF(self) == old(srcEOF(self))
+//@ iface ChunkReader.Close
+//@   modifies nothing
+
+//@ ghost vcBase(ref) int
+//@ pure vcSeen(r) = srcCount(r.ChunkReader) - vcBase(r)
+//@ pure vcWF(r) = r.ChunkReader != nil && r.hasher != nil && r.source.dataIntegrityCallback != nil && r.bytesRemaining >= 0
+//@ pure vcCounts(r) = hCount(r.hasher) + r.bytesRemaining == dgSize(r.digest.value) && vcSeen(r) == hCount(r.hasher)
+//@ pure vcInv(r) = vcWF(r) && (r.err == nil ==> vcCounts(r))
+//@ typeinv casValidatingChunkReader(r) = vcInv(r)
+//@ pure vcCompared(r) = cmpOK == 1 && dgHash(cmpA) == 1 && sumOf(cmpB) == r.hasher && sumCount(cmpB) == hCount(r.hasher)
+//@ pure vcComplete(r) = srcEOF(r.ChunkReader) == 1 && vcSeen(r) == dgSize(r.digest.value)
+//@     && hCount(r.hasher) == dgSize(r.digest.value) && vcCompared(r)
+
+//@ func newCASValidatingChunkReader
+//@   requires r != nil && source.dataIntegrityCallback != nil
+//@   exitghost vcBase(result) := srcCount(r)
+//@   ensures result != nil && tinv(result)
+
+//@ func (*casValidatingChunkReader).checkSize
+//@   requires vcWF(r)
+//@   modifies negV
+//@   ensures result == nil <==> chunkLength <= r.bytesRemaining
+//@   ensures result == nil ==> negV == old(negV)
+//@   ensures result != nil ==> negV == old(negV) + 1 && result != io.EOF && code(result) == r.source.errorCode
+
+// maybeFinalize: nothing happens while data is outstanding; otherwise the
+// source is drained (only empty chunks are tolerated) and the checksum compared.
+//@ func (*casValidatingChunkReader).maybeFinalize
+//@   requires vcWF(r) && vcCounts(r)
+//@   ensures [fields] unchanged(r.ChunkReader) && unchanged(r.hasher) && unchanged(r.source.dataIntegrityCallback) && unchanged(r.err)
+//@         && unchanged(r.digest.value) && unchanged(r.bytesRemaining) && unchanged(hCount(r.hasher))
+//@   ensures [not-yet] old(r.bytesRemaining) > 0 ==> result == nil && posV == old(posV) && negV == old(negV)
+//@         && srcCount(r.ChunkReader) == old(srcCount(r.ChunkReader))
+//@   ensures [decided] old(r.bytesRemaining) == 0 ==> result != nil
+//@   ensures [complete-only-if-valid] result == io.EOF ==> vcComplete(r)
+//@   ensures [positive-verdict-iff-complete] (result == io.EOF ==> posV == old(posV) + 1) && (result != io.EOF ==> posV == old(posV))
+//@   ensures [negative-verdict-only-on-mismatch] negV != old(negV) ==> result != nil && result != io.EOF
+//@         && code(result) == r.source.errorCode && (vcSeen(r) > dgSize(r.digest.value) || cmpOK != 1)
+//@   ensures [counts-kept] result == nil ==> vcCounts(r)
+//@   loop 0 invariant vcWF(r) && unchanged(r.bytesRemaining) && unchanged(r.ChunkReader) && unchanged(r.hasher) && unchanged(r.err)
+//@         && unchanged(r.source.dataIntegrityCallback) && unchanged(r.source.errorCode) && unchanged(r.digest.value)
+//@         && unchanged(hCount(r.hasher)) && r.bytesRemaining == 0
+//@   loop 0 invariant vcSeen(r) == hCount(r.hasher) && posV == old(posV) && negV == old(negV)
+
+//@ func (*casValidatingChunkReader).doRead
+//@   requires vcInv(r) && r.err == nil
+//@   ensures [fields] unchanged(r.ChunkReader) && unchanged(r.hasher) && unchanged(r.source.dataIntegrityCallback) && unchanged(r.err)
+//@         && unchanged(r.digest.value) && r.bytesRemaining >= 0
+//@   ensures [counts] result1 == nil ==> vcCounts(r)
+//@   ensures [complete-only-if-valid] result1 == io.EOF ==> vcComplete(r)
+//@   ensures [positive-verdict-iff-complete] (result1 == io.EOF ==> posV == old(posV) + 1) && (result1 != io.EOF ==> posV == old(posV))
+//@   ensures [negative-verdict-only-on-mismatch] negV != old(negV) ==> result1 != nil && result1 != io.EOF
+//@         && code(result1) == r.source.errorCode
+//@         && (vcSeen(r) > dgSize(r.digest.value) || (srcEOF(r.ChunkReader) == 1 && vcSeen(r) < dgSize(r.digest.value)) || cmpOK != 1)
+//@   ensures [data-withheld-on-error] result1 != nil ==> len(result0) == 0
+
+// Read hands out a chunk only if the stream may still turn out to be valid: the
+// last chunk is returned only after the whole stream has been validated.
+//@ func (*casValidatingChunkReader).Read
+//@   requires vcInv(r)
+//@   ensures [inv] vcInv(r)
+//@   ensures [sticky] old(r.err) != nil ==> result1 == old(r.err) && len(result0) == 0 && posV == old(posV) && negV == old(negV)
+//@         && srcCount(r.ChunkReader) == old(srcCount(r.ChunkReader))
+//@   ensures [complete-only-if-valid] old(r.err) == nil && (result1 == io.EOF || r.err == io.EOF) ==> vcComplete(r)
+//@   ensures [last-chunk-only-after-validation] old(r.err) == nil && result1 == nil && hCount(r.hasher) == dgSize(r.digest.value) ==> r.err == io.EOF && vcComplete(r)
+//@   ensures [positive-verdict-iff-complete] old(r.err) == nil ==> (r.err == io.EOF ==> posV == old(posV) + 1) && (r.err != io.EOF ==> posV == old(posV))
+//@   ensures [data-withheld-on-error] result1 != nil ==> len(result0) == 0
